@@ -47,9 +47,9 @@ RetPool == CASE RetSet = "int" -> {Sc("int")} [] RetSet = "reps" -> (Reps \cap R
 Bools(on) == IF on THEN BOOLEAN ELSE {FALSE}
 Opts == IF OptSet \in {"none", "plink"}
           THEN {[merge |-> FALSE, sort |-> FALSE, cnaming |-> FALSE, inl |-> FALSE, rename |-> FALSE,
-                 plink |-> OptSet = "plink", abiov |-> "none"]}
+                 plink |-> OptSet = "plink", abiov |-> "none", distrust |-> d] : d \in (IF OptSet = "none" THEN BOOLEAN ELSE {FALSE})}
           ELSE [merge : BOOLEAN, sort : BOOLEAN, cnaming : BOOLEAN, inl : BOOLEAN, rename : BOOLEAN,
-                plink : BOOLEAN, abiov : {"none", "C-unwind", "system"}]
+                plink : BOOLEAN, abiov : {"none", "C-unwind", "system"}, distrust : BOOLEAN]
 
 (* Rust keywords that are ordinary identifiers in C *)
 KwPool == << <<"t","y","p","e">>, <<"m","a","t","c","h">>, <<"f","n">>, <<"i","m","p","l">>,
@@ -85,6 +85,9 @@ Start(shape, kind, pi, pd, ar, w) ==
   /\ kind \in {"inline", "static", "vectorcall"} => shape = "plain"
   /\ kind = "variadic" => ar >= 1
   /\ shape = "renamed" => opt.rename
+  (* --distrust-clang-mangling: the mangled name clang reports is not used, so an asm label is (by the user's own   *)
+  (* choice) invisible - those shapes are not generated under it; everything else must still bind its symbol       *)
+  /\ opt.distrust => shape \notin {"asm", "asmu", "renamed"}
   /\ shape = "keyword" => Len(lib) < Len(KwPool)
   /\ shape \in {"kwtail", "dollartail"} => kind = "fn" /\ NFns = 2 /\ pi + pd = 0
   /\ cur' = [kind |-> kind, shape |-> shape, args |-> PadArgs(pi, pd), toks |-> PadToks(pi, pd),
@@ -178,7 +181,7 @@ EndFn(ret, rtok, redecl, useov) ==
          (* with --prefix-link-name the library is built with prefixed symbols *)
          csym == IF opt.plink THEN Q_ \o name ELSE csym0
          variadic == cur.kind = "variadic"
-         d == [name |-> name, mangled |-> csym0, linkov |-> linkov, abi |-> AbiOf(cur.kind),
+         d == [name |-> name, mangled |-> IF opt.distrust THEN None ELSE csym0, linkov |-> linkov, abi |-> AbiOf(cur.kind),
                variadic |-> variadic, internal |-> cur.kind = "static", mkind |-> "fn", template |-> FALSE]
          o == [wrapStatic |-> FALSE, suffix |-> <<>>,
                abiOverride |-> IF useov THEN (name :> opt.abiov) ELSE <<>>]
@@ -212,7 +215,7 @@ EndVar(t, const, k, k2) ==
          name == nm[2]
          linkov == IF opt.plink THEN Q_ \o name ELSE None
          csym == IF opt.plink THEN Q_ \o name ELSE nm[3]
-         d == [name |-> name, mangled |-> nm[3], linkov |-> linkov, const |-> const, template |-> FALSE]
+         d == [name |-> name, mangled |-> IF opt.distrust THEN None ELSE nm[3], linkov |-> linkov, const |-> const, template |-> FALSE]
          r == VarStep(d, vseen)
          pred == IF r.emitted
                    THEN [emitted |-> TRUE, why |-> "", ident |-> Str(r.ident), link |-> LinkOut(r.link),
